@@ -9,6 +9,10 @@ def dispatch (op : String) (args : List Sexp) : String :=
   | "sock.recv" => opSockRecv args
   | "seq.hash" => opSeqHash args
   | "client.run" => opClientRun args
+  | "encap.build" => opEncapBuild args
+  | "ident.decmod" => opIdentDecMod args
+  | "ident.declist" => opIdentDecList args
+  | "ident.encmod" => opIdentEncMod args
   | "reply.generic" => opReplyGeneric args
   | "reply.register" => opReplyRegister args
   | "path.epath" => opPathEpath args
